@@ -83,6 +83,10 @@ type Result struct {
 	ID        [][]byte
 	NumOps    int
 	WriteErr  error // error returned by a Writer call (with fault injection)
+	// DeferredReject is set when the Writer accepted a Put issued while a stream
+	// was open (the call returned nil) and the Close of that stream then failed
+	// although the program gave no wrong /Length.
+	DeferredReject string
 	Panic     any
 }
 
@@ -486,8 +490,26 @@ func Exec(cfg Config, c *explore.Ctx, maxOps int, env *Env) (res *Result) {
 				d["Length"] = pdf.Integer(total + 1)
 			}
 			// a Put issued while the stream is open is deferred by the Writer
-			putInside := in.c.Choose(2, "put-inside") == 1
-			res.Ops = append(res.Ops, fmt.Sprintf("OpenStream(%v[%s], filter=%s, length-mode=%d, %d writes of %d bytes, put-inside=%v)", ref, how, FilterNames[fi], lenMode, len(parts), total, putInside))
+			// 0: nothing, 1: Put of a plain value, 2: Put of a stream object
+			putInsideKind := in.c.Choose(3, "put-inside")
+			putInside := putInsideKind != 0
+			deferred := 0
+			putDeferred := func() bool {
+				r2 := w.Alloc()
+				deferred++
+				if putInsideKind == 2 {
+					data := []byte("deferred stream body")
+					if err := w.Put(r2, pdf.NewStream(pdf.Dict{"K": pdf.String("deferred(")}, data)); err != nil {
+						in.fail(err, "Put stream while stream open")
+						return false
+					}
+					res.Streams[r2] = &StreamModel{Dict: pdf.Dict{"K": pdf.String("deferred(")}, Data: data}
+					return true
+				}
+				vi := in.pick(NumValues, "value")
+				return put(r2, in.value(vi, r2), "Put while stream open")
+			}
+			res.Ops = append(res.Ops, fmt.Sprintf("OpenStream(%v[%s], filter=%s, length-mode=%d, %d writes of %d bytes, put-inside=%d)", ref, how, FilterNames[fi], lenMode, len(parts), total, putInsideKind))
 			in.arg("OpenStream dict", d)
 			ws, err := w.OpenStream(ref, d, filters(fi)...)
 			if err != nil {
@@ -507,21 +529,20 @@ func Exec(cfg Config, c *explore.Ctx, maxOps int, env *Env) (res *Result) {
 				}
 				all = append(all, p...)
 				if putInside && i == 0 {
-					r2 := w.Alloc()
-					vi := in.pick(NumValues, "value")
-					if !put(r2, in.value(vi, r2), "Put while stream open") {
+					if !putDeferred() {
 						return res
 					}
 				}
 			}
 			if putInside && len(parts) == 0 {
-				r2 := w.Alloc()
-				vi := in.pick(NumValues, "value")
-				if !put(r2, in.value(vi, r2), "Put while stream open") {
+				if !putDeferred() {
 					return res
 				}
 			}
 			if err := ws.Close(); err != nil {
+				if deferred > 0 && lenMode != 2 {
+					res.DeferredReject = err.Error()
+				}
 				in.fail(err, "stream Close")
 				return res
 			}
